@@ -30,6 +30,7 @@ type c19Native struct {
 	nres  int // -1: panics
 	seen  [][]int
 	value goat.Value
+	reuse int // how the native builds its result slice: 0 fresh; 1..3 in the storage of the args slice it was handed
 }
 
 func c19Weigh(args []int) int {
@@ -57,6 +58,21 @@ func newC19Native(form string, argc, nres int) *c19Native {
 		}
 		return out
 	}
+	// a native may hand back (part of) the args slice it was given, rewritten in place: the results are what the
+	// slice holds when the native returns
+	inPlace := func(args, out []goat.Value) []goat.Value {
+		switch {
+		case n.reuse == 1 && len(args) >= len(out):
+			copy(args, out)
+			return args[:len(out)]
+		case n.reuse == 2 && len(args) >= len(out):
+			copy(args[len(args)-len(out):], out)
+			return args[len(args)-len(out):]
+		case n.reuse == 3:
+			return append(args[:0], out...)
+		}
+		return out
+	}
 	switch form {
 	case "f00":
 		n.value = goat.NewFunc(argc, 0, func(vm *goat.VM) { results(nil) })
@@ -67,10 +83,10 @@ func newC19Native(form string, argc, nres int) *c19Native {
 	case "fN1":
 		n.value = goat.NewFunc(argc, 1, func(vm *goat.VM, args []goat.Value) goat.Value { return results(args)[0] })
 	case "fNM":
-		n.value = goat.NewFunc(argc, nres, func(vm *goat.VM, args []goat.Value) []goat.Value { return results(args) })
+		n.value = goat.NewFunc(argc, nres, func(vm *goat.VM, args []goat.Value) []goat.Value { return inPlace(args, results(args)) })
 	case "fVar":
 		n.value = goat.NewFunc(argc, nres, func(vm *goat.VM, args []goat.Value, vargs ...goat.Value) []goat.Value {
-			return results(append(append([]goat.Value{}, args...), vargs...))
+			return inPlace(args, results(append(append([]goat.Value{}, args...), vargs...)))
 		})
 	}
 	return n
@@ -102,6 +118,10 @@ func (c *Ctx) c19Natives(n int) (lines, impl []string) {
 		if panics {
 			nat.nres = -1
 		}
+		if nat.reuse = r.Intn(6); nat.reuse > 3 {
+			nat.reuse = 0
+		}
+		c.Rep.Count(fmt.Sprintf("native-result-storage-%d", nat.reuse))
 		xArgs := argc
 		extras := 0
 		if form == "fVar" {
@@ -583,6 +603,36 @@ func (c *Ctx) c19RoundTrips(n int) {
 	}
 }
 
+// c19HookErrors: a failure inside a host-supplied hook that a builtin calls back into (the yield hook behind
+// time.Sleep, VM.Yield from a native of the host) is a nested call: it surfaces as the error of the outer call
+func (c *Ctx) c19HookErrors() {
+	for _, via := range []string{"script", "script-function", "host-call", "host-native"} {
+		vm := goat.New()
+		calls := 0
+		vm.Set("builtin.__yield", goat.NewFunc(0, 0, func(vm *goat.VM) { calls++; panic("yield hook failed") }))
+		vm.Set("main.pause", goat.NewFunc(0, 0, func(vm *goat.VM) { vm.Yield() }))
+		var err error
+		var out string
+		switch via {
+		case "script":
+			_, err = vm.Eval(fstest.MapFS{}, "main", "import \"time\"\nx := 1\ntime.Sleep(0)\nx = 2\n")
+		case "script-function":
+			_, err = vm.Eval(fstest.MapFS{}, "main", "import \"time\"\nx := 1\nfunc f() { time.Sleep(0) }\nf()\nx = 2\n")
+		case "host-call":
+			_, err = vm.Call("time.Sleep", 0, goat.Float64(0))
+		default:
+			_, err = vm.Eval(fstest.MapFS{}, "main", "x := 1\npause()\nx = 2\n")
+		}
+		if via != "host-call" {
+			out = vm.Get("main.x").String()
+		}
+		c.Rep.Oracle["hook-error-surfaces"]++
+		if err == nil || !strings.Contains(err.Error(), "yield hook failed") || calls != 1 || (via != "host-call" && out != "1") {
+			c.Rep.Violate(Violation{Kind: "oracle", Cut: "hook-error-surfaces", Input: "the yield hook panics; reached through " + via, Impl: fmt.Sprintf("err=%v hook calls=%d x=%s", err, calls, out), Oracle: "an error that carries the hook's message; the statement after the call does not run"})
+		}
+	}
+}
+
 func runC19(c *Ctx) error {
 	c.Rep.Rule = "native: the six NewFunc forms x arities 0..6 x 0..4 results, called above a caller prefix of 0..3 values with the right / a wrong argument count, every requested result count 0..4, panicking bodies, variadic natives with 0..3 extras, by a CALL instruction and by VM.Func; scripts: natives with 0..5 parameters called as multi-assign, nested in arithmetic, inside a slice literal, variadic with extras or a spread slice, a native that re-enters the VM; VM.Call on a two-result script function for requested counts 0..3; errors from a native panic, from a nested VM.Call and from a script called by the host; round trips of every constructor over boundary and random values; distinct = distinct call line / script; non-trivial = non-empty caller prefix and accepted call / more than one parameter"
 	nn, ns, nr := 2000, 40, 5000
@@ -604,6 +654,7 @@ func runC19(c *Ctx) error {
 	}
 	c.c19Scripts(ns)
 	c.c19ZeroArity()
+	c.c19HookErrors()
 	c.c19RoundTrips(nr)
 	return nil
 }
